@@ -26,6 +26,8 @@ val compOpp : comparison -> comparison
 
 val add : nat -> nat -> nat
 
+val mul : nat -> nat -> nat
+
 type positive =
 | XI of positive
 | XO of positive
@@ -183,6 +185,8 @@ val map : ('a1 -> 'a2) -> 'a1 list -> 'a2 list
 val flat_map : ('a1 -> 'a2 list) -> 'a1 list -> 'a2 list
 
 val fold_left : ('a1 -> 'a2 -> 'a1) -> 'a2 list -> 'a1 -> 'a1
+
+val fold_right : ('a2 -> 'a1 -> 'a1) -> 'a1 -> 'a2 list -> 'a1
 
 val existsb : ('a1 -> bool) -> 'a1 list -> bool
 
@@ -1004,6 +1008,8 @@ val skip_dead : movegen -> entry list -> nat -> nat
 val set_entry : movegen -> nat -> entry -> n -> nat -> movegen
 
 val mg_next : movegen -> move option * movegen
+
+val drain_bound : movegen -> nat
 
 val mg_drain_fuel : nat -> movegen -> move list
 
